@@ -7,6 +7,7 @@ package main
 
 import (
 	"bytes"
+	"encoding/hex"
 	"encoding/binary"
 	"encoding/json"
 	"fmt"
@@ -29,6 +30,7 @@ import (
 
 func init() {
 	register("robust-run", robustRun)
+	register("c16-inits", c16Inits)
 }
 
 type robustInput struct {
@@ -533,4 +535,38 @@ func topFrame(stack string) string {
 		}
 	}
 	return "?"
+}
+
+// c16Inits prints init segments built through the public API, one per sample entry type, with the parameter sets inside
+// the decoder configuration record (avc1, hvc1) or without them (avc3, hev1: parameter sets travel in band).
+func c16Inits(args []string) error {
+	unhex := func(name string) []byte {
+		b, _ := hex.DecodeString(argValue(args, name, ""))
+		return b
+	}
+	avcSPS, avcPPS := unhex("-avcsps"), unhex("-avcpps")
+	vps, sps, pps := unhex("-vps"), unhex("-sps"), unhex("-pps")
+	for _, v := range []struct {
+		entry string
+		hevc  bool
+		incl  bool
+	}{{"avc1", false, true}, {"avc3", false, false}, {"hvc1", true, true}, {"hev1", true, false}} {
+		init := mp4.CreateEmptyInit()
+		init.AddEmptyTrack(90000, "video", "und")
+		var err error
+		if v.hevc {
+			err = init.Moov.Trak.SetHEVCDescriptor(v.entry, [][]byte{vps}, [][]byte{sps}, [][]byte{pps}, nil, v.incl)
+		} else {
+			err = init.Moov.Trak.SetAVCDescriptor(v.entry, [][]byte{avcSPS}, [][]byte{avcPPS}, v.incl)
+		}
+		if err != nil {
+			return fmt.Errorf("%s: %w", v.entry, err)
+		}
+		var buf bytes.Buffer
+		if err := init.Encode(&buf); err != nil {
+			return err
+		}
+		emit(J{"type": "init", "entry": v.entry, "parameter_sets_in_record": v.incl, "hex": hex.EncodeToString(buf.Bytes())})
+	}
+	return nil
 }
